@@ -176,6 +176,10 @@ func encodeBody(enc string, body []byte) []byte {
 		_, _ = w.Write(body)
 		_ = w.Close()
 		return b.Bytes()
+	case "gzip-multi":
+		// several concatenated members are one valid gzip stream (RFC 1952 2.2)
+		cut := len(body) / 3
+		return append(append(encodeBody("gzip", body[:cut]), encodeBody("gzip", body[cut:2*cut])...), encodeBody("gzip", body[2*cut:])...)
 	case "br":
 		var b bytes.Buffer
 		w := brotli.NewWriterLevel(&b, 4)
@@ -308,7 +312,7 @@ func (u *upstreamSrv) handle(w http.ResponseWriter, r *http.Request) {
 	}
 	data := encodeBody(spec.Encoding, spec.Body)
 	if spec.Encoding != "" {
-		h.Set("Content-Encoding", spec.Encoding)
+		h.Set("Content-Encoding", strings.TrimSuffix(spec.Encoding, "-multi"))
 	}
 	h.Set("Content-Length", strconv.Itoa(len(data)))
 	w.WriteHeader(spec.Status)
